@@ -46,7 +46,8 @@ def split_low_dom_heuristic(
     :return: the events
     """
     cp_cur_idx = stacks_top[0]
-    value = (shr_domains_stack[cp_cur_idx, dom_idx, MIN] + shr_domains_stack[cp_cur_idx, dom_idx, MAX]) // 2
+    # the bounds are 32 bits wide, their sum may not be
+    value = (int(shr_domains_stack[cp_cur_idx, dom_idx, MIN]) + int(shr_domains_stack[cp_cur_idx, dom_idx, MAX])) // 2
     cp_put(shr_domains_stack, not_entailed_propagators_stack, stacks_top)
     shr_domains_stack[cp_cur_idx + 1, dom_idx, MAX] = value
     shr_domains_stack[cp_cur_idx, dom_idx, MIN] = value + 1
